@@ -184,6 +184,13 @@ def circumcentre_residuals(X, A, B, C):
     return max(d) - min(d), abs(float((X - A) @ N))
 
 
+def triangle_aspect_ratio(A, B, C):
+    """circumradius / (2 inradius) = abc / (8 (s-a)(s-b)(s-c)); 1 for the equilateral triangle, larger otherwise."""
+    a, b, c = length(B, C), length(C, A), length(A, B)
+    s = (a + b + c) / 2.0
+    return a * b * c / (8.0 * (s - a) * (s - b) * (s - c))
+
+
 def tet_volume(a, b, c, d):
     a, b, c, d = _v(a), _v(b), _v(c), _v(d)
     return abs(float((a - d) @ np.cross(b - d, c - d))) / 6.0
@@ -319,6 +326,47 @@ class SurfaceRef:
             return np.zeros(3), 0.0, False
         return s / ns, ns / tot, judged
 
+    def aspect_ratios(self):
+        """abc/(8(s-a)(s-b)(s-c)) per triangle, -1 for every other face (the documented value)."""
+        return np.array([triangle_aspect_ratio(*self.V[f]) if len(f) == 3 else -1.0 for f in self.F])
+
+    def near_border(self, dist):
+        """Faces at dual (edge-adjacency) distance < dist from a face that has a border edge; nothing on a closed surface."""
+        d = {}
+        front = sorted({fi for e in self.border_edges for fi, _ in self.edge_faces[e]})
+        for fi in front:
+            d[fi] = 0
+        adj = [set() for _ in range(self.nF)]
+        for e, l in self.edge_faces.items():
+            if len(l) == 2:
+                adj[l[0][0]].add(l[1][0])
+                adj[l[1][0]].add(l[0][0])
+        k = 0
+        while front:
+            k += 1
+            nxt = []
+            for fi in front:
+                for g in adj[fi]:
+                    if g not in d:
+                        d[g] = k
+                        nxt.append(g)
+            front = nxt
+        return np.array([1.0 if (fi in d and d[fi] < dist) else 0.0 for fi in range(self.nF)])
+
+    def edge_curvature_matrix(self, a, b):
+        """(dihedral angle between the normals of the two incident faces) * outer(unit edge, unit edge); zero matrix on a border edge.
+        Third value: judged? (both faces triangles / planar convex)."""
+        l = self.edge_faces[(min(a, b), max(a, b))]
+        if len(l) != 2:
+            return np.zeros((3, 3)), 0.0, True
+        f1, f2 = l[0][0], l[1][0]
+        n1, n2 = self.normal[f1], self.normal[f2]
+        c = np.cross(n1, n2)
+        ang = math.atan2(math.sqrt(float(c @ c)), float(n1 @ n2))
+        e = self.V[b] - self.V[a]
+        e = e / math.sqrt(float(e @ e))
+        return ang * np.outer(e, e), ang, bool(self.face_ok[f1] and self.face_ok[f2])
+
     def defect(self, v, zero_border=False):
         s = sum(self.angle[(fi, v)] for fi in self.vfaces[v])
         if v in self.border_vertices:
@@ -349,6 +397,12 @@ class VolumeRef:
             nb[a].add(b)
             nb[b].add(a)
         self.degree = np.array([len(s) for s in nb], dtype=int)
+        cnt = {}
+        for c in self.C:
+            for i in range(4):
+                k = tuple(sorted(c[:i] + c[i + 1:]))
+                cnt[k] = cnt.get(k, 0) + 1
+        self.cell_border_faces = np.array([sum(1 for i in range(4) if cnt[tuple(sorted(c[:i] + c[i + 1:]))] == 1) for c in self.C], dtype=int)
         self.volume = np.array([tet_volume(*(V[i] for i in c)) for c in self.C])
         self.cbary = np.array([barycentre(V[c]) for c in self.C])
         self.cdiam = np.array([max(float(np.linalg.norm(V[c[i]] - V[c[j]])) for i in range(4) for j in range(i)) for c in self.C])
